@@ -481,6 +481,8 @@ def c04(tier, repo=None):
                 ("ebr", dict(Shapes=["ebr", "eskw", "eskg"], NatFam="four", OCs=[1, 2], InFam="two", MaxNodes=3), 2500),
                 # fan-out then fan-in of map streams without output keys (array-backed producers with spare capacity), each case repeated
                 ("fofi", dict(Shapes=["fofi"], NatFam="four", OCs=[2, 3], InFam="two", MaxNodes=5), None),
+                # input keys carried by pass-through nodes that take their type from a type-changing successor (string -> keyed map)
+                ("keypt", dict(Shapes=["keypt"], NatFam="four", OCs=[2], InFam="two", MaxNodes=2, AllowFail=True), None),
                 # last, because a hanging merge uses up the harness's quota of hung calls and the rest is then not run
                 ("wide", dict(Shapes=["fank"], NatFam="four", OCs=[2, 3], InFam="two", MaxNodes=6), None)]
     else:
@@ -493,6 +495,7 @@ def c04(tier, repo=None):
                 ("nil", dict(Shapes=["nil1", "nil2", "nilif", "nilin", "nilbr"], NatFam="six", OCs=[1, 2, 3], InFam="three", MaxNodes=3, AllowFail=True), 40000),
                 ("ebr", dict(Shapes=["ebr", "eskw", "eskg"], NatFam="six", OCs=[1, 2, 3], InFam="three", MaxNodes=3), 40000),
                 ("fofi", dict(Shapes=["fofi"], NatFam="six", OCs=[1, 2, 3], InFam="five", MaxNodes=5), 4000),
+                ("keypt", dict(Shapes=["keypt"], NatFam="six", OCs=[1, 2, 3], InFam="three", MaxNodes=2, AllowFail=True), 20000),
                 ("wide", dict(Shapes=["fank"], NatFam="four", OCs=[1, 2, 3], InFam="five", MaxNodes=6, AllowFail=True), 20000)]
     cases, seen, gen_stats = [], set(), []
     states = trans = 0
